@@ -1,0 +1,124 @@
+//go:build verif
+// +build verif
+
+package rbtree
+
+import "fmt"
+
+// VerifNode is a copy of a node.
+type VerifNode struct {
+	Key, Value, Parent, Left, Right uint32
+	Black                           bool
+}
+
+// VerifSnapshot copies storage and gaps.
+func (allocator *Allocator) VerifSnapshot() ([]VerifNode, map[uint32]bool) {
+	res := make([]VerifNode, len(allocator.storage))
+	for i, n := range allocator.storage {
+		res[i] = VerifNode{n.item.Key, n.item.Value, n.parent, n.left, n.right, n.color}
+	}
+	gaps := map[uint32]bool{}
+	for k := range allocator.gaps {
+		gaps[k] = true
+	}
+	return res, gaps
+}
+
+// VerifHeader returns the tree header.
+func (tree *RBTree) VerifHeader() (root, min, max uint32, count int32) {
+	return tree.root, tree.minNode, tree.maxNode, tree.count
+}
+
+// VerifNodeOf returns the node index of an iterator.
+func (iter Iterator) VerifNodeOf() uint32 { return iter.node }
+
+// VerifCheck validates all structural invariants and returns the in-order items and node set.
+func (tree *RBTree) VerifCheck() (items []Item, nodes map[uint32]bool, err error) {
+	st := tree.allocator.storage
+	nodes = map[uint32]bool{}
+	var walk func(n, parent uint32, lo, hi int64) (int, error)
+	walk = func(n, parent uint32, lo, hi int64) (int, error) {
+		if n == 0 {
+			return 1, nil
+		}
+		if int(n) >= len(st) {
+			return 0, fmt.Errorf("node %d out of storage", n)
+		}
+		if nodes[n] {
+			return 0, fmt.Errorf("node %d visited twice", n)
+		}
+		if tree.allocator.gaps[n] {
+			return 0, fmt.Errorf("node %d is in gaps", n)
+		}
+		nodes[n] = true
+		nd := st[n]
+		if nd.parent != parent {
+			return 0, fmt.Errorf("node %d parent %d want %d", n, nd.parent, parent)
+		}
+		k := int64(nd.item.Key)
+		if k <= lo || k >= hi {
+			return 0, fmt.Errorf("node %d key %d violates BST bounds", n, k)
+		}
+		if nd.color == red {
+			if nd.left != 0 && st[nd.left].color == red || nd.right != 0 && st[nd.right].color == red {
+				return 0, fmt.Errorf("red-red at %d", n)
+			}
+		}
+		lh, err := walk(nd.left, n, lo, k)
+		if err != nil {
+			return 0, err
+		}
+		items = append(items, nd.item)
+		rh, err := walk(nd.right, n, k, hi)
+		if err != nil {
+			return 0, err
+		}
+		if lh != rh {
+			return 0, fmt.Errorf("black height mismatch at %d: %d vs %d", n, lh, rh)
+		}
+		if nd.color == black {
+			lh++
+		}
+		return lh, nil
+	}
+	if tree.root != 0 && st[tree.root].color != black {
+		return nil, nil, fmt.Errorf("red root")
+	}
+	if _, err := walk(tree.root, 0, -1, 1<<40); err != nil {
+		return nil, nil, err
+	}
+	if int(tree.count) != len(items) {
+		return nil, nil, fmt.Errorf("count %d vs %d", tree.count, len(items))
+	}
+	if len(items) == 0 {
+		if tree.minNode != 0 || tree.maxNode != 0 {
+			return nil, nil, fmt.Errorf("min/max of empty")
+		}
+	} else {
+		if st[tree.minNode].item != items[0] || st[tree.maxNode].item != items[len(items)-1] {
+			return nil, nil, fmt.Errorf("min/max wrong")
+		}
+	}
+	return items, nodes, nil
+}
+// VerifHibState exposes the hibernation fields; compressed buffers are returned decompressed.
+func (allocator *Allocator) VerifHibState() (storageNil, gapsNil bool, hibLen, hibGapsLen int, data [7][]uint32, dataNil [7]bool) {
+	storageNil = allocator.storage == nil
+	gapsNil = allocator.gaps == nil
+	hibLen, hibGapsLen = allocator.hibernatedStorageLen, allocator.hibernatedGapsLen
+	for i, d := range allocator.hibernatedData {
+		dataNil[i] = d == nil
+		if d == nil {
+			continue
+		}
+		n := hibLen
+		if i == 6 {
+			n = hibGapsLen
+		}
+		data[i] = make([]uint32, n)
+		if n > 0 && len(d) > 0 {
+			DecompressUInt32Slice(d, data[i])
+		}
+	}
+	return
+}
